@@ -792,3 +792,11 @@ CONTROLS['C11'] += [
     C('the wrapper no longer says how it is pickled (G2)',
       F('core', '_DiskCacheWrapper', lambda n: isinstance(n, ast.FunctionDef) and n.name == '__getstate__', M.delete), 'copy-in-another-process', tier='quick'),
 ]
+CONTROLS['C11'] += [
+    C('numpy and Python integer indices are different disk cache keys (K)',
+      stmt_delete('core', 'CacheDataset.__getitem__', 'item = int(item)'), 'cache-key-is-a-builtin-int', tier='quick'),
+]
+CONTROLS['C10'] += [
+    C('integer index used as cache key as it comes (K)',
+      stmt_delete('core', 'CacheDataset.__getitem__', 'item = int(item)'), 'cache-key-is-a-builtin-int'),
+]
